@@ -267,15 +267,22 @@ func schemaBind() *GrammarBind {
 // ---- generator of type-system documents (grammar-directed, type-blind) ----
 
 type SGen struct {
-	R *rand.Rand
-	Q *QGen
+	R     *rand.Rand
+	Q     *QGen
+	Nasty bool // descriptions from nastyDescs
 }
 
 var sNames = []string{"A", "B", "Query", "Mutation", "type", "input", "enum", "on", "implements", "extend", "schema", "repeatable", "FIELD", "OBJECT", "query", "_x", "Node", "id", "interface", "union", "scalar", "directive"}
 
 func (g *SGen) name() string { return sNames[g.R.Intn(len(sNames))] }
 
+var nastyDescs = []string{"  leading", "trailing \n", "\n\nblank around\n\n", "    all\n    indented", "\tall\n\t tabbed", "bell\x07", "cr\rlf", "a\r\nb", "   ", "\t", `a """ b`, `\"""`, `end\`, `end"`, `"start`, `""`,
+	"é日本\U0001F600", "tab\tin", "line1\n\n  line3", " \n x \n ", "#hash", "ls\u2028", "x\n", "\nx", "a\n   \nb", "del\x7f", "\ufeffbom", "a\\\nb", "\"\"\"\n\"\"\""}
+
 func (g *SGen) desc() []GT {
+	if g.Nasty && g.R.Intn(3) == 0 {
+		return []GT{leaf("desc", nastyDescs[g.R.Intn(len(nastyDescs))])}
+	}
 	switch g.R.Intn(5) {
 	case 0:
 		return []GT{leaf("desc", []string{"a description", "multi\nline", `with "quotes"`, "x"}[g.R.Intn(4)])}
